@@ -13,7 +13,8 @@ import (
 )
 
 // Inventory of the constructs through which a Go program can behave differently on two nodes or across a restart
-// (C10): iteration over maps, wall-clock time, random numbers, goroutines and select, floating point.
+// (C10): iteration over maps, wall-clock time, random numbers, goroutines and select, floating point, and in-memory
+// state (assignments through a keeper method's receiver or to a package-level variable).
 // Every site in consensus code must be listed, with its justification, in determinism_reviewed.json;
 // the generated file exposes the sites that are not.
 
@@ -158,6 +159,43 @@ func genDeterminism(repo string) {
 			return true
 		})
 	}
+	// package-level variables (per directory): assigning to one at run time is in-memory state that a restart loses
+	pkgVars := map[string]map[string]bool{}
+	for _, x := range files {
+		dir := filepath.Dir(x.rel)
+		if pkgVars[dir] == nil {
+			pkgVars[dir] = map[string]bool{}
+		}
+		for _, d := range x.f.Decls {
+			if gd, ok := d.(*ast.GenDecl); ok && gd.Tok == token.VAR {
+				for _, sp := range gd.Specs {
+					if vs, ok := sp.(*ast.ValueSpec); ok {
+						for _, nm := range vs.Names {
+							pkgVars[dir][nm.Name] = true
+						}
+					}
+				}
+			}
+		}
+	}
+	rootIdent := func(e ast.Expr) string {
+		for {
+			switch t := e.(type) {
+			case *ast.Ident:
+				return t.Name
+			case *ast.SelectorExpr:
+				e = t.X
+			case *ast.IndexExpr:
+				e = t.X
+			case *ast.StarExpr:
+				e = t.X
+			case *ast.ParenExpr:
+				e = t.X
+			default:
+				return ""
+			}
+		}
+	}
 	var sites []detSite
 	for _, x := range files {
 		for _, d := range x.f.Decls {
@@ -168,6 +206,54 @@ func genDeterminism(repo string) {
 			add := func(n ast.Node, kind, expr string) {
 				sites = append(sites, detSite{File: x.rel, Func: fd.Name.Name, Kind: kind, Expr: expr, Line: fset.Position(n.Pos()).Line})
 			}
+			// in-memory state: assignments through the method receiver (a field of a keeper, a map or pointer it holds)
+			// and assignments to package-level variables
+			recv := ""
+			if fd.Recv != nil && len(fd.Recv.List) == 1 && len(fd.Recv.List[0].Names) == 1 {
+				recv = fd.Recv.List[0].Names[0].Name
+			}
+			locals := map[string]bool{}
+			ast.Inspect(fd.Body, func(n ast.Node) bool {
+				if as, ok := n.(*ast.AssignStmt); ok && as.Tok == token.DEFINE {
+					for _, l := range as.Lhs {
+						if id, ok := l.(*ast.Ident); ok {
+							locals[id.Name] = true
+						}
+					}
+				}
+				return true
+			})
+			checkLHS := func(n ast.Node, l ast.Expr) {
+				if _, plain := l.(*ast.Ident); plain {
+					id := l.(*ast.Ident).Name
+					if id == "_" {
+						return
+					}
+					if pkgVars[filepath.Dir(x.rel)][id] && !locals[id] && fd.Name.Name != "init" {
+						add(n, "memory-state", src(fset, l))
+					}
+					return
+				}
+				r := rootIdent(l)
+				if r != "" && r == recv && strings.Contains(x.rel, "/keeper/") {
+					add(n, "memory-state", src(fset, l))
+				} else if r != "" && pkgVars[filepath.Dir(x.rel)][r] && !locals[r] && fd.Name.Name != "init" {
+					add(n, "memory-state", src(fset, l))
+				}
+			}
+			ast.Inspect(fd.Body, func(n ast.Node) bool {
+				switch t := n.(type) {
+				case *ast.AssignStmt:
+					if t.Tok != token.DEFINE {
+						for _, l := range t.Lhs {
+							checkLHS(t, l)
+						}
+					}
+				case *ast.IncDecStmt:
+					checkLHS(t, t.X)
+				}
+				return true
+			})
 			ast.Inspect(fd.Body, func(n ast.Node) bool {
 				switch t := n.(type) {
 				case *ast.RangeStmt:
